@@ -19,11 +19,15 @@ for d in sorted(glob.glob('/verif/seeded/C*-*'), key=keyf):
         print(name, 'PATCH DOES NOT APPLY', out.strip()[:200]); continue
     caught = {}
     try:
-        for pid in ids:
+        from concurrent.futures import ThreadPoolExecutor
+        def one(pid):
             rc, out = run(f'/verif/bin/soylint check -prop {pid} -repo /repo -no-evidence -out /verif', cwd='/verif')
             v = re.findall(r'^(?:VIOLATED|UNDECIDED) (\S+) (.*?) at ', out, re.M)
             f = re.findall(r'^ANALYSIS-FAILURE.*', out, re.M)
-            if v or f: caught[pid] = [' '.join(x) for x in v][:6] + f[:2]
+            return pid, ([' '.join(x) for x in v][:6] + f[:2]) if (v or f) else None
+        with ThreadPoolExecutor(max_workers=10) as ex:
+            for pid, r in ex.map(one, ids):
+                if r: caught[pid] = r
     finally:
         run('git -C /repo checkout -- . && git -C /repo clean -fdq')
     meta = json.load(open(d + '/meta.json'))
